@@ -57,6 +57,8 @@ impl Recorder {
         v["seq"] = json!(self.seq);
         v["t"] = json!(self.now());
         self.out.put(v);
+        // keep the file complete up to the last step even if the code under test aborts the process
+        self.out.flush();
     }
     pub fn finish(&mut self) -> u64 {
         self.out.flush()
